@@ -64,12 +64,21 @@ Definition run_ignore (mk : mask) (ops : list iarg) : mask := fold_left ignore_e
 Definition handle (mk : mask) (errs : list exn) (e : exn) : list exn * option exn :=
   (errs ++ [e], if masked mk e then None else Some e).
 
-(* DaeRawLoadErrors = (ValueError, TypeError, AttributeError, LookupError, ArithmeticError) *)
-Definition is_rawload (e : exn) : bool :=
-  match e with
-  | PyIndexError | PyKeyError | PyTypeError | PyValueError | PyAttributeError => true
-  | _ => false
+(* isinstance(e, c) for the built-in classes (the fragment of Python's hierarchy that matters:
+   IndexError and KeyError derive from LookupError, everything from Exception) *)
+Definition py_isinstance (e : exn) (c : pycls) : bool :=
+  match c, e with
+  | PC_Exception, OutOfFuel => false
+  | PC_Exception, _ => true
+  | PC_ValueError, PyValueError | PC_TypeError, PyTypeError | PC_AttributeError, PyAttributeError
+  | PC_IndexError, PyIndexError | PC_KeyError, PyKeyError
+  | PC_LookupError, PyIndexError | PC_LookupError, PyKeyError => true
+  | _, _ => false
   end.
+
+(* except DaeRawLoadErrors: the tuple is GENERATED from collada/common.py (Gen/Params.v) *)
+Definition is_rawload (e : exn) : bool :=
+  negb (is_dae e) && existsb (py_isinstance e) raw_load_errors.
 
 (* the two except clauses of a load boundary: which exception is handed to handleError *)
 Definition catch (e : exn) : option exn :=
